@@ -116,7 +116,7 @@ def dynamic_jobs(tier, seed, prop):
         jobs.append(rnd(("bench_gen", "small-gen-rgoal", seed % 50), 300, seed + 2))
         jobs.append(rnd(("bench_yaml", "small"), 300, seed + 3))
     elif prop == "C12":
-        for n in ["fw_asym", "deny", "two_public", "os_mix", "user_only"]:
+        for n in ["fw_asym", "deny", "two_public", "os_mix", "user_only", "twins"]:
             jobs.append(exh(("corpus_dict", n), modes=ALL_MODES, foreign=False))
         jobs.append(exh(("corpus_yaml", "two_public"), modes=ALL_MODES, foreign=False))
         jobs.append(rnd(("bench_yaml", "tiny-small"), 300, seed + 1, modes=ALL_MODES, lockstep=True))
